@@ -11,13 +11,17 @@ import (
 //   - two tasks of one stream hold the shared stream at the same time,
 //   - the shared stream is acquired out of spawn (= block) order or with a gap,
 //   - a sink/source call is made by a task that does not hold the stream,
-//   - a task that observed the cancel value touches the shared stream again.
+//   - a task that observed the cancel value touches the shared stream again,
+//   - a task acquires the stream although its last load of the counter came
+//     after a failed (or end-of-stream) task of its batch had posted the
+//     cancel value and signalled completion: it must have seen the cancel.
 //
 // Streams are identified by the task that drives them (the parent of the block
 // tasks), so any number of independent streams can be monitored at once.
 type HandoffMonitor struct {
 	streams map[int]*hoStream
 	tasks   map[int]*hoTask
+	now     int // logical clock: number of events fed so far
 	// statistics
 	Acquisitions   int
 	CancelObserved int
@@ -33,6 +37,10 @@ type hoStream struct {
 	nextAcquire int   // position in batch of the task that may acquire next
 	liveKids    int
 	failed      bool // some task of the current API call failed
+	// time at which a task that ended with an error or found the end of the stream signalled
+	// completion (its cancel store precedes that signal in program order); 0 = none in this batch
+	cancelPostedAt int
+	cancelPostedBy int
 }
 
 type hoTask struct {
@@ -42,6 +50,8 @@ type hoTask struct {
 	published  bool
 	acquired   bool
 	sawCancel  bool
+	lastLoadAt int  // time of the task's last load of the shared counter (spin hook)
+	cancelling bool // released with an error or at the end marker: it posts the cancel value
 	recovered  bool
 	failedFlag bool
 	exited     bool
@@ -76,6 +86,7 @@ func (m *HandoffMonitor) ResetFailed(parent int) {
 
 // OnEvent feeds one trace event. parent is the parent task of the task (or -1 for a root).
 func (m *HandoffMonitor) OnEvent(task, parent int, name string, a, b int64) error {
+	m.now++
 	switch {
 	case name == "spawn":
 		// task spawns child a
@@ -84,6 +95,7 @@ func (m *HandoffMonitor) OnEvent(task, parent int, name string, a, b int64) erro
 			st.batch = st.batch[:0]
 			st.nextAcquire = 0
 			st.holder = -1
+			st.cancelPostedAt = 0
 			m.Batches++
 		}
 		child := int(a)
@@ -121,8 +133,14 @@ func (m *HandoffMonitor) OnEvent(task, parent int, name string, a, b int64) erro
 
 	st := m.stream(t.parent)
 
+	if name == "wg.done" && t.cancelling && st.cancelPostedAt == 0 {
+		st.cancelPostedAt = m.now
+		st.cancelPostedBy = task
+	}
+
 	switch {
 	case strings.HasSuffix(name, ".spin"):
+		t.lastLoadAt = m.now
 		if a == -1 {
 			if !t.sawCancel {
 				m.CancelObserved++
@@ -138,6 +156,9 @@ func (m *HandoffMonitor) OnEvent(task, parent int, name string, a, b int64) erro
 		}
 		if st.holder >= 0 {
 			return fmt.Errorf("task %d acquired the shared stream while task %d still holds it", task, st.holder)
+		}
+		if st.cancelPostedAt > 0 && t.lastLoadAt > st.cancelPostedAt {
+			return fmt.Errorf("task %d acquired the shared stream although it loaded the counter after task %d (failed or at the end of the stream) had posted the cancel value and completed: the others do not stop", task, st.cancelPostedBy)
 		}
 		if t.pos != st.nextAcquire {
 			want := -1
@@ -174,12 +195,14 @@ func (m *HandoffMonitor) OnEvent(task, parent int, name string, a, b int64) erro
 		switch a {
 		case 1:
 			// the task ends with an error
+			t.cancelling = true
 			t.failedFlag = true
 			st.failed = true
 			m.FailedTasks++
 		case 2:
 			// decoder: no error but nothing decoded - the end marker, or (without checksum) a
 			// damaged block that decodes to nothing; the task cancels its successors but did not fail
+			t.cancelling = true
 			m.EndOfStream++
 		}
 		if t.holding {
